@@ -42,8 +42,8 @@ def fmt_line(serial, a):
     if len(chain) != 1:                     # chain identifier carried by the segID columns
         seg, chain = chain, ' '
     x, y, z = (a[k] / 1000.0 for k in ('x', 'y', 'z'))
-    line = 'ATOM  %5d %4s %3s %1s%4d    %8.3f%8.3f%8.3f%6.2f%6.2f      %-4s%2s  ' % (
-        serial, nm, a['resName'], chain, a['resSeq'], x, y, z, 1.0, 0.0, seg, a.get('element', ''))
+    line = 'ATOM  %5d %4s %3s %1s%4d%1s   %8.3f%8.3f%8.3f%6.2f%6.2f      %-4s%2s  ' % (
+        serial, nm, a['resName'], chain, a['resSeq'], a.get('iCode', ''), x, y, z, 1.0, 0.0, seg, a.get('element', ''))
     assert len(line) == 80, (len(line), line)
     return line
 
@@ -82,6 +82,7 @@ def gen_structure(rng, nchains=None, max_atoms=12, spread=6000, allow_seg=True, 
         natoms = rng.randint(1, max_atoms)
         atoms = []
         resSeq = rng.randint(-3, 4)
+        same_triple_next = False
         while len(atoms) < natoms:
             k = min(natoms - len(atoms), rng.randint(1, 4))
             rn = rng.choice(RESNAMES)
@@ -100,14 +101,21 @@ def gen_structure(rng, nchains=None, max_atoms=12, spread=6000, allow_seg=True, 
                 else:
                     names.append(rng.choice(HEAVY_SIDE))
             rc = [cc[i] + rng.randint(-spread // 2, spread // 2) for i in range(3)]
+            if atoms and same_triple_next:
+                # an inserted residue (insertion code) with the number AND the name of the one before it: for the library
+                # a residue is (chain, number, name), so the two are one residue (the insertion code is not part of it)
+                rn = atoms[-1]['resName']; icode = 'A'
+            else:
+                icode = ''
+            same_triple_next = False
             for nm in names:
-                atoms.append({'name': nm, 'resName': rn, 'chain': c, 'resSeq': resSeq,
+                atoms.append({'name': nm, 'resName': rn, 'chain': c, 'resSeq': resSeq, 'iCode': icode,
                               'x': rc[0] + rng.randint(-1500, 1500), 'y': rc[1] + rng.randint(-1500, 1500),
                               'z': rc[2] + rng.randint(-1500, 1500), 'name_left': rng.random() < 0.1})
             # next residue: same number with another name (rare), next number, or a jump
             r = rng.random()
             if r < 0.15:
-                pass
+                same_triple_next = rng.random() < 0.4
             elif r < 0.8:
                 resSeq += 1
             else:
